@@ -160,6 +160,11 @@ func checkC04(prop string, c *Case, v *merge.Verdict, ir *implResult) []finding 
 			got = map[merge.Item]int{}
 			lr, _ := ir.views[k].(*api.LinuxResources)
 			items.ReadResources(lr, got)
+			if want := reqDeviceRules(c); want != nil && !sameDeviceRules(want, lr.GetDevices()) {
+				fs = append(fs, finding{fmt.Sprintf("%s|view-mismatch|cgroup-device-rules|%s", prop, c.Chan),
+					fmt.Sprintf("the update request carries device cgroup rules %v, plugin at position %d was shown %v", want, k, lr.GetDevices())})
+				return fs
+			}
 		}
 		kinds, detail := diffKinds(v.Views[k].Cont, got)
 		lk, ld := diffLists(v.Views[k].Lists, gotL)
@@ -232,6 +237,9 @@ func checkC05(prop string, c *Case, v *merge.Verdict, ir *implResult) []finding 
 			items.ReadResources(last.GetLinux().GetResources(), got)
 			if kinds, detail := diffKinds(st.Cont, got); len(kinds) > 0 {
 				add("own-entry-fields|"+strings.Join(kinds, "+"), "entry of the updated container is not the requested resources overlaid with the plugins' changes: %s", strings.Join(detail, "; "))
+			}
+			if want := reqDeviceRules(c); want != nil && !sameDeviceRules(want, last.GetLinux().GetResources().GetDevices()) {
+				add("own-entry-fields|cgroup-device-rules", "entry of the updated container is not the requested resources overlaid with the plugins' changes: the request's device cgroup rules %v came back as %v", want, last.GetLinux().GetResources().GetDevices())
 			}
 		} else if hasFields(last) {
 			got := map[merge.Item]int{}
